@@ -295,6 +295,9 @@ def corpus_cases():
         add("8_3_0", t, False, e, "corpus-mutant")
     add("8_3_0", "(Duration/3 s, (Red)), (Blue, (Duration/3 s, (Red)))", False, "TAG_GROUP_ERROR", "top_level_copy")
     add("8_3_0", "(Def/MyDef, Onset), (Blue, (Green, (Def/MyDef, Onset)))", False, "TAG_GROUP_ERROR", "top_level_copy")
+    add("8_3_0", "Sensory-event, ((Red, Red))", False, "TAG_EXPRESSION_REPEATED", "repeat_nested")
+    add("8_3_0", "Sensory-event, (((Red, Blue), (Blue, Red)))", False, "TAG_EXPRESSION_REPEATED", "repeat_nested")
+    add("8_3_0", "(Def-expand/CueDef/Target, (Label/Target, Label/Fixation))", False, None, "v_defexpand_placeholder_sibling")
     add("8_3_0", "Label/#", False, "PLACEHOLDER_INVALID", "corpus-mutant")
     add("8_3_0", "Label/#", True, None, "corpus-valid")
     add("8_3_0", "Red, {col}", False, "CHARACTER_INVALID", "corpus-mutant")
@@ -335,6 +338,22 @@ def gen_cases(tier, seed, keys, n_random):
                 t2 = G.deep(tree)
                 t2.insert(rng.randint(0, len(t2)), G.form_of(rng, n) + "/3 " + u)
                 cases.append(dict(schema=key, text=G.render(t2, rng), ph=ph, expect=None, rule="v_unit_with_blank"))
+            if V.has_defs and rng.random() < 0.2:
+                # Def-expand of a definition whose placeholder tag has a similarly spelled sibling, members as
+                # declared or reordered: content equals the expansion up to sibling order => conforming
+                g = G.deep(rng.choice(G.PLACEHOLDER_SIBLING_EXPANSIONS))
+                if rng.random() < 0.5:
+                    g[1] = g[1][::-1]
+                if rng.random() < 0.3:
+                    g = g[::-1]
+                t2 = G.deep(tree)
+                tgt = t2
+                if rng.random() < 0.3:
+                    tgt = [V.filler]
+                    t2.insert(rng.randint(0, len(t2)), tgt)
+                tgt.insert(rng.randint(0, len(tgt)), g)
+                cases.append(dict(schema=key, text=G.render(t2, rng), ph=ph, expect=None,
+                                  rule="v_defexpand_placeholder_sibling"))
             if V.has_defs and rng.random() < 0.05:
                 t2 = G.deep(tree)
                 t2.insert(rng.randint(0, len(t2)), rng.choice([[["Blue", "Red"], "Def-expand/AltDef"],
